@@ -197,3 +197,219 @@ Proof.
   destruct E1 as [f1 E1], E2 as [f2 E2], E3 as [f3 E3]. exists f1, f2, f3.
   repeat split; try assumption; try (repeat constructor). vm_compute. discriminate.
 Qed.
+
+(* ================= identifiers with one rounding that may underflow ================= *)
+
+(* the square root of a binary64 number never underflows: it is 0 or >= 2^-537 *)
+Lemma normal64_sqrt s : fmt64 s -> ~ s < 0 -> normal64 (R_sqrt.sqrt s).
+Proof.
+  intros Hs Hn. destruct (Req_dec s 0) as [->|Hz]; [left; apply sqrt_0|]. right.
+  assert (Hpos : 0 < s) by lra.
+  destruct (proj1 (fix64_repr s) (fix64_of_fmt64 s Hs)) as [m Em].
+  assert (Hb : 0 < bpow radix2 (-1074)) by apply bpow_gt_0.
+  assert (Hm : (1 <= m)%Z).
+  { destruct (Z_lt_le_dec m 1) as [L|L]; [|exact L]. exfalso.
+    assert (IZR m <= 0) by (apply IZR_le; lia). nra. }
+  assert (Hge : bpow radix2 (-1074) <= s).
+  { rewrite Em. apply IZR_le in Hm. nra. }
+  rewrite Rabs_pos_eq by apply sqrt_ge_0.
+  rewrite <- bpow_m1022.
+  apply Rle_trans with (bpow radix2 (-537)); [apply bpow_le; lia|].
+  change (-1074)%Z with (2 * -537)%Z in Hge. rewrite <- (sqrt_bpow radix2 (-537)).
+  now apply sqrt_le_1_alt.
+Qed.
+
+Definition sqd (rnd : R -> R) (a b : R) : R := rnd (rnd (a - b) ^ 2).
+
+Lemma mr_gower rnd x y : metric_rnd rnd ir_gower x y =
+  if Req_EM_T (len x) 0 then None else Some (rnd (rsum rnd (map2 (absd rnd) x y) / len x)).
+Proof. unfold_metric. fold (absd rnd). rewrite oseq_map2_some. reflexivity. Qed.
+
+Lemma mr_non_intersection rnd x y : metric_rnd rnd ir_non_intersection x y =
+  Some (rnd (/ 2 * rsum rnd (map2 (absd rnd) x y))).
+Proof.
+  unfold_metric. fold (absd rnd). rewrite oseq_map2_some. cbn [obind obind2 binRnd].
+  replace (Q2R (1 # 2)) with (/ 2); [reflexivity|]. unfold Q2R. cbn [Qnum Qden]. lra.
+Qed.
+
+Lemma mr_squared_euclidean rnd x y : metric_rnd rnd ir_squared_euclidean x y = Some (rsum rnd (map2 (sqd rnd) x y)).
+Proof. unfold_metric. fold (sqd rnd). now rewrite oseq_map2_some. Qed.
+
+Lemma mr_euclidean rnd x y : metric_rnd rnd ir_euclidean x y =
+  if Rlt_dec (rsum rnd (map2 (sqd rnd) x y)) 0 then None else Some (rnd (R_sqrt.sqrt (rsum rnd (map2 (sqd rnd) x y)))).
+Proof. unfold_metric. fold (sqd rnd). rewrite oseq_map2_some. reflexivity. Qed.
+
+Lemma agree_gower x y : Forall fmt64 x -> Forall fmt64 y ->
+  normal64 (rsum rnd64 (map2 (fun a b => Rabs (rnd64 (a - b))) x y) / len x) ->
+  metric_rnd rnd64 ir_gower x y = metric_rnd rnd64x ir_gower x y.
+Proof.
+  intros Hx Hy Hn. rewrite !mr_gower. rewrite <- (absd_agree x y Hx Hy). rewrite <- (rsum_agree64 _ (absd_fmt x y)).
+  destruct (Req_EM_T (len x) 0); [reflexivity|]. f_equal. apply agree64_normal. exact Hn.
+Qed.
+
+Lemma agree_non_intersection x y : Forall fmt64 x -> Forall fmt64 y ->
+  normal64 (/ 2 * rsum rnd64 (map2 (fun a b => Rabs (rnd64 (a - b))) x y)) ->
+  metric_rnd rnd64 ir_non_intersection x y = metric_rnd rnd64x ir_non_intersection x y.
+Proof.
+  intros Hx Hy Hn. rewrite !mr_non_intersection. rewrite <- (absd_agree x y Hx Hy). rewrite <- (rsum_agree64 _ (absd_fmt x y)).
+  f_equal. apply agree64_normal. exact Hn.
+Qed.
+
+(* no rounded square underflows *)
+Definition squares_normal (x y : list R) : Prop :=
+  Forall (fun d => normal64 (d ^ 2)) (map2 (fun a b => rnd64 (a - b)) x y).
+
+Lemma sqd_agree : forall x y, Forall fmt64 x -> Forall fmt64 y -> squares_normal x y ->
+  map2 (sqd rnd64) x y = map2 (sqd rnd64x) x y.
+Proof.
+  unfold squares_normal.
+  induction x as [|a x IH]; intros [|b y] Hx Hy Hn; cbn [map2] in *; try reflexivity.
+  inversion Hx; inversion Hy; inversion Hn; subst. f_equal; [|now apply IH].
+  unfold sqd. rewrite <- (agree64_sub a b) by assumption. now apply agree64_normal.
+Qed.
+
+Lemma sqd_fmt x y : Forall fmt64 (map2 (sqd rnd64) x y).
+Proof. apply Forall_map2. intros a b. apply fmt64_rnd64. Qed.
+
+Lemma agree_squared_euclidean x y : Forall fmt64 x -> Forall fmt64 y -> squares_normal x y ->
+  metric_rnd rnd64 ir_squared_euclidean x y = metric_rnd rnd64x ir_squared_euclidean x y.
+Proof.
+  intros Hx Hy Hn. rewrite !mr_squared_euclidean. rewrite <- (sqd_agree x y Hx Hy Hn). f_equal.
+  apply rsum_agree64. apply sqd_fmt.
+Qed.
+
+Lemma agree_euclidean x y : Forall fmt64 x -> Forall fmt64 y -> squares_normal x y ->
+  metric_rnd rnd64 ir_euclidean x y = metric_rnd rnd64x ir_euclidean x y.
+Proof.
+  intros Hx Hy Hn. rewrite !mr_euclidean. rewrite <- (sqd_agree x y Hx Hy Hn). rewrite <- (rsum_agree64 _ (sqd_fmt x y)).
+  destruct (Rlt_dec (rsum rnd64 (map2 (sqd rnd64) x y)) 0) as [L|L]; [reflexivity|]. f_equal.
+  apply agree64_normal. apply normal64_sqrt; [|exact L]. apply fmt64_rsum. apply sqd_fmt.
+Qed.
+
+Theorem capstone_gower : forall (x y : list PrimFloat.float) (f : PrimFloat.float),
+  Forall (fun a => ffin a = true) x -> Forall (fun a => ffin a = true) y -> length x = length y -> (1 <= length x)%nat ->
+  (Z.of_nat (length x) <= 2 ^ 53)%Z ->
+  metric_fltc ir_gower x y = Some f ->
+  normal64 (rsum rnd64 (map2 (fun a b => Rabs (rnd64 (a - b))) (map f2r x) (map f2r y)) / len (map f2r x)) ->
+  Rabs (f2r f - sp_gower (map f2r x) (map f2r y))
+  <= ((1 + u64) ^ (length x + 1) - 1) * sp_gower (map f2r x) (map f2r y).
+Proof.
+  intros x y f Fx Fy L N Z E U.
+  destruct plain_exact_table as (_ & _ & _ & [P C] & _). destruct b64_table as (_ & _ & _ & _ & _ & _ & B & _).
+  apply (capstone_gen ir_gower sp_gower (fun n => (n + 1)%nat) P C B x y f Fx Fy L N Z E).
+  apply agree_gower; [apply fmt64_map_f2r | apply fmt64_map_f2r | exact U].
+Qed.
+
+Theorem capstone_non_intersection : forall (x y : list PrimFloat.float) (f : PrimFloat.float),
+  Forall (fun a => ffin a = true) x -> Forall (fun a => ffin a = true) y -> length x = length y -> (1 <= length x)%nat ->
+  (Z.of_nat (length x) <= 2 ^ 53)%Z ->
+  metric_fltc ir_non_intersection x y = Some f ->
+  normal64 (/ 2 * rsum rnd64 (map2 (fun a b => Rabs (rnd64 (a - b))) (map f2r x) (map f2r y))) ->
+  Rabs (f2r f - sp_non_intersection (map f2r x) (map f2r y))
+  <= ((1 + u64) ^ (length x + 1) - 1) * sp_non_intersection (map f2r x) (map f2r y).
+Proof.
+  intros x y f Fx Fy L N Z E U.
+  destruct plain_exact_table as (_ & _ & _ & _ & [P C] & _). destruct b64_table as (_ & _ & _ & _ & _ & _ & _ & B).
+  apply (capstone_gen ir_non_intersection sp_non_intersection (fun n => (n + 1)%nat) P C B x y f Fx Fy L N Z E).
+  apply agree_non_intersection; [apply fmt64_map_f2r | apply fmt64_map_f2r | exact U].
+Qed.
+
+Theorem capstone_squared_euclidean : forall (x y : list PrimFloat.float) (f : PrimFloat.float),
+  Forall (fun a => ffin a = true) x -> Forall (fun a => ffin a = true) y -> length x = length y -> (1 <= length x)%nat ->
+  (Z.of_nat (length x) <= 2 ^ 53)%Z ->
+  metric_fltc ir_squared_euclidean x y = Some f ->
+  Forall (fun d => normal64 (d ^ 2)) (map2 (fun a b => rnd64 (a - b)) (map f2r x) (map f2r y)) ->
+  Rabs (f2r f - sp_squared_euclidean (map f2r x) (map f2r y))
+  <= ((1 + u64) ^ (length x + 2) - 1) * sp_squared_euclidean (map f2r x) (map f2r y).
+Proof.
+  intros x y f Fx Fy L N Z E U.
+  destruct plain_exact_table as (_ & _ & _ & _ & _ & [P C] & _). destruct b64_table as (B & _).
+  apply (capstone_gen ir_squared_euclidean sp_squared_euclidean (fun n => (n + 2)%nat) P C B x y f Fx Fy L N Z E).
+  apply agree_squared_euclidean; [apply fmt64_map_f2r | apply fmt64_map_f2r | exact U].
+Qed.
+
+Theorem capstone_euclidean : forall (x y : list PrimFloat.float) (f : PrimFloat.float),
+  Forall (fun a => ffin a = true) x -> Forall (fun a => ffin a = true) y -> length x = length y -> (1 <= length x)%nat ->
+  (Z.of_nat (length x) <= 2 ^ 53)%Z ->
+  metric_fltc ir_euclidean x y = Some f ->
+  Forall (fun d => normal64 (d ^ 2)) (map2 (fun a b => rnd64 (a - b)) (map f2r x) (map f2r y)) ->
+  Rabs (f2r f - sp_euclidean (map f2r x) (map f2r y))
+  <= ((1 + u64) ^ ((length x + 3) / 2 + 1) - 1) * sp_euclidean (map f2r x) (map f2r y).
+Proof.
+  intros x y f Fx Fy L N Z E U.
+  destruct plain_exact_table as (_ & _ & _ & _ & _ & _ & [P C] & _). destruct b64_table as (_ & _ & B & _).
+  apply (capstone_gen ir_euclidean sp_euclidean (fun n => ((n + 3) / 2 + 1)%nat) P C B x y f Fx Fy L N Z E).
+  apply agree_euclidean; [apply fmt64_map_f2r | apply fmt64_map_f2r | exact U].
+Qed.
+
+(* ---------------- non-vacuity of the conditional capstones ---------------- *)
+Lemma f2r_lit (f : PrimFloat.float) (z : Z) : flt_is_Q f (inject_Z z) = true -> f2r f = IZR z.
+Proof.
+  intros H. destruct (flt_is_Q_sound f _ H) as [_ E]. rewrite E. unfold Q2R, inject_Z. cbn [Qnum Qden]. lra.
+Qed.
+
+Lemma rnd64_intR (z : Z) (r : R) : r = IZR z -> (Z.abs z <= 2 ^ 53)%Z -> rnd64 r = r.
+Proof. intros -> H. now apply rnd64_int. Qed.
+
+Lemma normal64_ge1 t : 1 <= t -> normal64 t.
+Proof.
+  intros H. right. rewrite Rabs_pos_eq by lra. apply Rle_trans with 1; [|exact H].
+  assert (H1 : 1 <= 2 ^ 1022) by (apply pow_R1_Rle; lra).
+  rewrite <- Rinv_1. apply Rinv_le_contravar; lra.
+Qed.
+
+Definition ex_x : list PrimFloat.float := [0%float; 3%float].
+Definition ex_y : list PrimFloat.float := [4%float; 1%float].
+
+Lemma ex_vals : map f2r ex_x = [0; 3] /\ map f2r ex_y = [4; 1].
+Proof.
+  unfold ex_x, ex_y. cbn [map].
+  rewrite (f2r_lit 0%float 0 eq_refl), (f2r_lit 3%float 3 eq_refl), (f2r_lit 4%float 4 eq_refl), (f2r_lit 1%float 1 eq_refl).
+  split; reflexivity.
+Qed.
+
+Lemma ex_absd : map2 (fun a b => Rabs (rnd64 (a - b))) [0; 3] [4; 1] = [4; 2].
+Proof.
+  cbn [map2].
+  rewrite (rnd64_intR (-4) (0 - 4)) by (lra || now vm_compute).
+  rewrite (rnd64_intR 2 (3 - 1)) by (lra || now vm_compute).
+  rewrite (Rabs_left (0 - 4)), (Rabs_right (3 - 1)) by lra.
+  repeat f_equal; lra.
+Qed.
+
+Lemma ex_rsum : rsum rnd64 [4; 2] = 6.
+Proof. cbn [rsum fold_left]. rewrite (rnd64_intR 6 (4 + 2)) by (lra || now vm_compute). lra. Qed.
+
+Lemma ex_diffs : map2 (fun a b => rnd64 (a - b)) [0; 3] [4; 1] = [-4; 2].
+Proof.
+  cbn [map2].
+  rewrite (rnd64_intR (-4) (0 - 4)) by (lra || now vm_compute).
+  rewrite (rnd64_intR 2 (3 - 1)) by (lra || now vm_compute).
+  repeat f_equal; lra.
+Qed.
+
+Lemma capstone_nonvacuous_cond :
+  exists (x y : list PrimFloat.float) (f1 f2 f3 f4 : PrimFloat.float),
+    Forall (fun a => ffin a = true) x /\ Forall (fun a => ffin a = true) y /\ length x = length y /\ length x = 2%nat
+    /\ (Z.of_nat (length x) <= 2 ^ 53)%Z
+    /\ metric_fltc ir_gower x y = Some f1 /\ metric_fltc ir_non_intersection x y = Some f2
+    /\ metric_fltc ir_squared_euclidean x y = Some f3 /\ metric_fltc ir_euclidean x y = Some f4
+    /\ normal64 (rsum rnd64 (map2 (fun a b => Rabs (rnd64 (a - b))) (map f2r x) (map f2r y)) / len (map f2r x))
+    /\ normal64 (/ 2 * rsum rnd64 (map2 (fun a b => Rabs (rnd64 (a - b))) (map f2r x) (map f2r y)))
+    /\ Forall (fun d => normal64 (d ^ 2)) (map2 (fun a b => rnd64 (a - b)) (map f2r x) (map f2r y)).
+Proof.
+  exists ex_x, ex_y.
+  assert (E1 : exists f, metric_fltc ir_gower ex_x ex_y = Some f) by (vm_compute; eauto).
+  assert (E2 : exists f, metric_fltc ir_non_intersection ex_x ex_y = Some f) by (vm_compute; eauto).
+  assert (E3 : exists f, metric_fltc ir_squared_euclidean ex_x ex_y = Some f) by (vm_compute; eauto).
+  assert (E4 : exists f, metric_fltc ir_euclidean ex_x ex_y = Some f) by (vm_compute; eauto).
+  destruct E1 as [f1 E1], E2 as [f2 E2], E3 as [f3 E3], E4 as [f4 E4]. exists f1, f2, f3, f4.
+  destruct ex_vals as [Vx Vy]. rewrite Vx, Vy, ex_absd, ex_rsum, ex_diffs.
+  split; [repeat constructor|]. split; [repeat constructor|]. split; [reflexivity|]. split; [reflexivity|].
+  split; [vm_compute; discriminate|].
+  split; [exact E1|]. split; [exact E2|]. split; [exact E3|]. split; [exact E4|].
+  split; [|split].
+  - apply normal64_ge1. unfold len. cbn [length INR]. lra.
+  - apply normal64_ge1. lra.
+  - constructor; [apply normal64_ge1; lra|]. constructor; [apply normal64_ge1; lra|]. constructor.
+Qed.
